@@ -32,6 +32,7 @@ const (
 )
 
 type Thread struct {
+	quiet   int // >0: scheduling points are suppressed (NoPoints)
 	low     bool
 	cname   string // canonical name: parent.cname + "." + spawn index
 	nspawn  int
@@ -239,7 +240,7 @@ func lookup() *Thread {
 // Point is called by shims before a visible operation.
 func Point(kind OpKind, obj uintptr) {
 	t := lookup()
-	if t == nil || t.ex.released {
+	if t == nil || t.ex.released || t.quiet > 0 {
 		return
 	}
 	t.op, t.obj, t.enabled = kind, obj, nil
@@ -588,6 +589,19 @@ func (ex *Exec) Release() {
 
 // Leaked counts executions whose threads did not all exit after Release.
 var Leaked int
+
+// NoPoints runs f on the calling thread without scheduling points: for bookkeeping of the shims themselves (e.g.
+// formatting map keys for a canonical iteration order) that happens to call instrumented code.
+func NoPoints(f func()) {
+	t := lookup()
+	if t == nil {
+		f()
+		return
+	}
+	t.quiet++
+	defer func() { t.quiet-- }()
+	f()
+}
 
 // Quiet runs f (tear-down code) with a time limit; a stuck tear-down is abandoned.
 func Quiet(f func()) {
